@@ -69,3 +69,8 @@ claim("C14", "model_checking",
       "For each cell the real sender sends 1000-byte messages to a peer that does not read until a send is refused or is still pending after one virtual hour; the refusal kind and exact virtual elapsed time must match SNDTIMEO (0: immediate would-block; t>0: timeout/would-block within [t, t+100 ms]; -1: waits, and completes once the peer reads), the peer must then receive exactly the accepted messages in order, and the number accepted before the first refusal may exceed 2*SNDHWM+RCVHWM only by the same constant at every HWM. RCVTIMEO likewise on an empty socket.",
       "virtual tokio clock (exact); HWM in {1,2,8,64(,1000)}, timeouts in {-1,0,1,50,500 ms}; 'peer never reads' = idle peer application or stalled in-memory network; REQ/REP/PUB senders are covered by C10/C12 scenarios rather than here",
       "5/C14")
+claim("C10", "model_checking",
+      "E3 + gates: explicit-state BFS by re-execution over decision histories (release a caller parked at a verif::sched gate between state check and state update / peer replies or sends / peer disconnects) for 1-2 caller tasks on clones of one real REQ or REP socket in deterministic worlds",
+      "For every pair of caller plans (up to 2 calls each over send/recv/recv_multipart/send_multipart), 1-2 peers and every order in which the racing callers and the peers act (depth 7, thorough 9), the completion-ordered log of successful calls must alternate send/recv (REQ) or recv/send (REP), and each REP reply must arrive at the peer whose request the preceding recv returned.",
+      "races are exposed at the gates (the check-then-act windows) and at natural await points; other multi-thread interleavings inside a call are not enumerated; recv time-outs are not counted as successes; ROUTER/DEALER peers stand in for REP/REQ peers so that the harness controls replies",
+      "5/C10")
